@@ -543,6 +543,9 @@ class CoAPHomeKitConnection:
         return results
 
     async def write_characteristics(self, ids_values: list[tuple[int, int, Any]]):
+        # results are paired with the requested items after the exchange:
+        # work on our own copy so the caller's list can change meanwhile
+        ids_values = list(ids_values)
         tlv_values = self._write_characteristics_enter(ids_values)
 
         # batch write
@@ -576,6 +579,7 @@ class CoAPHomeKitConnection:
         return results
 
     async def subscribe_to(self, ids: list[tuple[int, int]]):
+        ids = list(ids)
         iids = [int(aid_iid[1]) for aid_iid in ids]
         data = [b""] * len(iids)
         pdu_results = await self.enc_ctx.post_all(OpCode.UNK_0B_SUBSCRIBE, iids, data)
@@ -607,6 +611,7 @@ class CoAPHomeKitConnection:
     async def unsubscribe_from(self, ids: list[tuple[int, int]]):
         if not ids:
             return {}
+        ids = list(ids)
         iids = [int(aid_iid[1]) for aid_iid in ids]
         data = [b""] * len(iids)
         pdu_results = await self.enc_ctx.post_all(OpCode.UNK_0C_UNSUBSCRIBE, iids, data)
